@@ -658,9 +658,12 @@ def run(run):
     compare_filtered(run, "json_tojson", dom_cases, impl, mod, False, descs_of(dom_objs))
     recs = []
     for fam, ci, x in dom_objs:
-        j = x.toJson()
-        recs.append((fam, ci, j))
-        recs.append((fam, ci, json.loads(json.dumps(j))))
+        try:
+            j = x.toJson()
+            recs.append((fam, ci, j))
+            recs.append((fam, ci, json.loads(json.dumps(j))))
+        except Exception:   # noqa  not ignored: the json_tojson comparison above has already failed on this
+            run.count("in_domain_tojson_or_dumps_raised")   # object and the oracle below reports it as a concrete replay
     fcases = [[fam.wire(), FUEL, ci.cid, enc_pv(j)] for fam, ci, j in recs]
     impl = [guard(lambda: ci.cls.fromJson(j)) for fam, ci, j in recs]
     mod = M.call_many("json_fromjson", fcases)
